@@ -191,6 +191,15 @@ func (m *Machine) RunCase(fnName string, s *Solver, opts Options) CaseResult {
 					add(mm)
 				}
 			}
+			// vZeroOK: variables of packages whose initialiser is not run that the harness declares
+			// harmless to read as zero (e.g. passed straight into a stubbed function)
+			if g, ok := pkg.Members["vZeroOK"].(*ssa.Global); ok {
+				if lst, ok := (*i.globals[g]).([]value); ok {
+					for _, n := range lst {
+						zeroOK[n.(string)] = true
+					}
+				}
+			}
 			if g, ok := pkg.Members["vStubTableFor"].(*ssa.Global); ok {
 				if outer, ok := (*i.globals[g]).(map[value]value); ok {
 					if inner, ok := outer[fnName].(map[value]value); ok {
